@@ -517,7 +517,69 @@ class Discharger:
                     self.stale.append((s, e, new))
                     return (None, 'STALE reviewed entry (%s): the code computing or guarding this site changed since review; new slice items: %s' % (e.get('why', '')[:80], ' ;; '.join(x[:160] for x in new[:4]) or '(items removed)'))
             return ('T', e.get('why', ''))
+        r = self.via_callers(fn, s)
+        if r:
+            return r
         return (None, '')
+
+    # -------------------------------------------------------------
+    def _call_index(self):
+        """callee path -> [caller Fn] for this crate, and the set of workspace functions used as function values"""
+        if getattr(self, '_cidx', None) is None:
+            idx = {}
+            refs = set()
+            c = self.prog.crate(self.crate)
+            for f in c.fns:
+                for b in f.reach:
+                    blk = f.blocks[b]
+                    t = blk['t']
+                    if t['k'] == 'call' and 'fn' in t:
+                        idx.setdefault(t['fn'], [])
+                        if f not in idx[t['fn']]:
+                            idx[t['fn']].append(f)
+                    for node in list(blk['s']) + [t]:
+                        for n in _json_walk(node):
+                            if isinstance(n, dict) and 'fn' in n and n is not t and n.get('k') != 'call':
+                                refs.add(n['fn'])
+            self._cidx = (idx, refs)
+        return self._cidx
+
+    def via_callers(self, fn, s):
+        """A site in a private helper that nobody reviewed is judged in the context of each of its callers: the helper is
+        inlined into the caller and the copy of the site is decided there (dischargers, or the reviewed entry the caller
+        has for exactly this computation - the situation after an extract-function refactoring).  Every caller must
+        settle it; a helper that is public, used as a function value or called from nowhere is not handled."""
+        if getattr(self, '_in_via', False) or fn.kind != 'fn' or fn.raw.get('pub', True) or getattr(fn, 'inlined', None):
+            return None
+        idx, refs = self._call_index()
+        if fn.path in refs:
+            return None
+        callers = idx.get(fn.path) or []
+        if not callers or len(callers) > 6:
+            return None
+        import mirq
+        whys = []
+        self._in_via = True
+        try:
+            for F in callers:
+                if F.path == fn.path:
+                    return None
+                view = mirq.inline_calls(self.prog, F, lambda g: g.path == fn.path, depth=1, crates=[self.crate])
+                if view is F:
+                    return None
+                copies = [x for x in inventory(view) if view.blocks[x.bb].get('inl') == fn.path and x.kind == s.kind and x.line == s.line
+                          and (x.bb - s.bb) >= len(F.blocks) and (x.bb - len(F.blocks) - s.bb) % len(fn.blocks) == 0]
+                if not copies:
+                    return None
+                iv = Intervals(view, self.prog, self.crate)
+                for x in copies:
+                    v, why = self.decide(view, x, iv)
+                    if v is None:
+                        return None
+                    whys.append('%s in %s' % (v, F.qual.split('::')[-1]))
+        finally:
+            self._in_via = False
+        return ('V', 'private helper judged in the context of its %d caller(s): %s' % (len(callers), '; '.join(sorted(set(whys)))[:200]))
 
     def idioms(self, fn, s, iv):
         t = s.term
@@ -806,6 +868,18 @@ def local_macros(repo):
                 for m in re.finditer(r'macro_rules!\s+(\w+)', fh.read()):
                     out.add(m.group(1) + '!')
     return out
+
+
+def _json_walk(node):
+    if isinstance(node, dict):
+        yield node
+        for v in node.values():
+            for x in _json_walk(v):
+                yield x
+    elif isinstance(node, list):
+        for v in node:
+            for x in _json_walk(v):
+                yield x
 
 
 def analyse(prog, crate_name, fns, table=None, known=()):
